@@ -355,18 +355,23 @@ def hampelTargets (n w a : Nat) : List Nat :=
     else (List.range (h + 1)).map (· + (n - h - 1))
   else [a + h]
 
-/-- one iteration of the loop body of `_hampel_filter` for the window starting at position `a` -/
+/-- the loop body of `_hampel_filter` once the window's values `vs` have been read: median, MAD,
+and `Z.iloc[j] = _compare(Z.iloc[j], …)` for the target positions -/
+def hampelBody (cfg : HampelCfg) (z : Series) (a : Nat) (vs : List Val) : Series :=
+  let med := nanMedian vs
+  let dev : List Val := vs.map (fun v => match v, med with
+    | some x, some m => some (if x - m < 0 then m - x else x - m)
+    | _, _ => none)
+  let sigma := (nanMedian dev).map (cfg.k * ·)
+  (hampelTargets z.length cfg.w a).foldl
+    (fun acc j => setPos acc j (hampelCompare ((acc[j]?).bind (·.2)) med sigma cfg.nSigma)) z
+
+/-- one iteration of the loop of `_hampel_filter` for the window starting at position `a`:
+the window is read with `Z[cv_window]`, i.e. BY LABEL -/
 def hampelWindow (cfg : HampelCfg) (z : Series) (a : Nat) : Except Err Series :=
   match lookupLabels z ((List.range cfg.w).map (fun i => ((a + i : Nat) : Int))) with
   | .error e => .error e
-  | .ok vs =>
-    let med := nanMedian vs
-    let dev : List Val := vs.map (fun v => match v, med with
-      | some x, some m => some (if x - m < 0 then m - x else x - m)
-      | _, _ => none)
-    let sigma := (nanMedian dev).map (cfg.k * ·)
-    .ok ((hampelTargets z.length cfg.w a).foldl
-      (fun acc j => setPos acc j (hampelCompare ((acc[j]?).bind (·.2)) med sigma cfg.nSigma)) z)
+  | .ok vs => .ok (hampelBody cfg z a vs)
 
 /-- `_hampel_filter`: windows `a = 0 .. n-w-1` (SlidingWindowSplitter(window_length=w, fh=1)),
 each reading the series as modified by the previous ones -/
